@@ -33,13 +33,14 @@ from translate.regexlib import coq_str
 # name in the source -> (path, Coq name, parameters with kinds, return kind)
 #   kinds: str | opttoken ; return: str (total) | res_str | res_optstr
 TARGETS = [
-    ("helper.py", ["string"], "hstring", [("value", "str")], "str"),
     ("helper.py", ["stringvalue"], "hstringvalue", [("string", "str")], "res_str"),
     ("util.py", ["Base", "_stringtokenvalue"], "stringtokenvalue", [("token", "opttoken")], "res_optstr"),
 ]
 
 
 def lit(v):
+    if v == "":
+        return "[]"
     if all(32 <= ord(c) < 127 and c not in '"\\' for c in v) and v:
         return coq_str(v)
     return "[" + "; ".join("%d%%N" % ord(c) for c in v) + "]"
@@ -234,8 +235,92 @@ class Fn:
             self.coqname, " ".join("(%s : %s)" % (self.var(p), ty[k]) for p, k in self.params), rt, body)
 
 
+# ---------------------------------------------------------------------------------------------- helper.string
+# helper.string is a loop (a three-state scanner, see its source); it is modelled by the fixed Gallina text below
+# (hstring_loop) and tied to the source in two ways: the SHAPE of the function (its AST with every str constant
+# replaced by a hole, docstring removed) must be the pinned one - otherwise generation is refused - and every str
+# constant is taken from the source into the generated definitions, so a changed literal changes Gen/Quote.v and the
+# theorems are re-checked against it.  The loop model itself is compared with the implementation by the check.
+STRING_SHAPE = "1fa315ae6dca7a55"
+STRING_MODEL = """
+Fixpoint str_assoc (c : N) (tb : list (N * str)) : str :=
+  match tb with [] => [c] | (k, v) :: r => if N.eqb k c then v else str_assoc c r end.
+(* the final out.append of the loop body: the escaped quote, a newline escape of _string_newlines, or c itself *)
+Definition str_plain (c : N) : str := if N.eqb c str_quote then str_quote_esc else str_assoc c str_newlines.
+Inductive sstate := SN | S1 | S2.   (* state 0 / 1 / 2 of the loop *)
+Fixpoint hstring_loop (st : sstate) (v : str) : str :=
+  match v with
+  | [] => match st with SN => [] | S1 => str_end1 | S2 => str_end2 end
+  | c :: r =>
+    match st with
+    | S1 => if N.eqb c str_bs then str_s1_first ++ hstring_loop S2 r
+            else (if mem c str_hexdigits then str_s1_hex else str_s1_else) ++ str_plain c ++ hstring_loop SN r
+    | S2 => if N.eqb c str_bs then str_s2_first ++ hstring_loop S1 r
+            else (if mem c str_hexdigits then str_s2_hex else str_s2_else) ++ str_plain c ++ hstring_loop SN r
+    | SN => if N.eqb c str_bs then hstring_loop S1 r else str_plain c ++ hstring_loop SN r
+    end
+  end.
+Definition hstring (v_value : str) : str := str_fmt_pre ++ hstring_loop SN v_value ++ str_fmt_post.
+"""
+
+
+class _Holes(ast.NodeTransformer):
+    def visit_Constant(self, n):
+        if isinstance(n.value, str):
+            return ast.copy_location(ast.Constant(value="<str>"), n)
+        return n
+
+
+def string_loop(tree):
+    import hashlib
+    fn = find_func(tree, ["string"])
+    body = list(fn.body)
+    if body and isinstance(body[0], ast.Expr) and isinstance(body[0].value, ast.Constant) and isinstance(body[0].value.value, str):
+        body = body[1:]
+    consts = []
+    for b in body:
+        for n in ast.walk(b):
+            if isinstance(n, ast.Constant) and isinstance(n.value, str):
+                consts.append((n.lineno, n.col_offset, n.value))
+    consts = [v for _, _, v in sorted(consts)]
+    shape = hashlib.sha256("".join(ast.dump(_Holes().visit(ast.parse(ast.unparse(b)))) for b in body).encode()).hexdigest()[:16]
+    if shape != STRING_SHAPE:
+        raise Refused("helper.string: the statement shape changed (%s, pinned %s): the hand-written loop model "
+                      "hstring_loop no longer describes the code" % (shape, STRING_SHAPE))
+    if len(consts) != 15:
+        raise Refused("helper.string: %d string constants, expected 15" % len(consts))
+    (t1, f1, h1, e1, t2, f2, h2, e2, t0, qe, q, end1, end2, fmt, joiner) = consts
+    if not (t1 == t2 == t0 and len(t0) == 1):
+        raise Refused("helper.string: the three backslash tests differ")
+    if len(q) != 1 or joiner != "" or fmt.count("%s") != 1 or fmt.count("%") != 1:
+        raise Refused("helper.string: quote test / join / format constants")
+    glob = {}
+    for n in tree.body:
+        if isinstance(n, ast.Assign) and len(n.targets) == 1 and isinstance(n.targets[0], ast.Name):
+            glob[n.targets[0].id] = n.value
+    nl, hx = glob.get("_string_newlines"), glob.get("_hexdigits")
+    if not (isinstance(nl, ast.Dict) and all(isinstance(k, ast.Constant) and isinstance(k.value, str) and len(k.value) == 1 and
+                                             isinstance(v, ast.Constant) and isinstance(v.value, str) for k, v in zip(nl.keys, nl.values))):
+        raise Refused("helper._string_newlines is not a dict of one-character keys to strings")
+    if not (isinstance(hx, ast.Constant) and isinstance(hx.value, str)):
+        raise Refused("helper._hexdigits is not a string constant")
+    pre, post = fmt.split("%s")
+    d = ["Definition str_bs : N := %d%%N." % ord(t0),
+         "Definition str_quote : N := %d%%N." % ord(q),
+         "Definition str_quote_esc : str := %s." % lit(qe),
+         "Definition str_hexdigits : str := %s." % lit(hx.value),
+         "Definition str_newlines : list (N * str) := [%s]." % "; ".join(
+             "(%d%%N, %s)" % (ord(k.value), lit(v.value)) for k, v in zip(nl.keys, nl.values)),
+         "Definition str_s1_first : str := %s." % lit(f1), "Definition str_s1_hex : str := %s." % lit(h1),
+         "Definition str_s1_else : str := %s." % lit(e1), "Definition str_s2_first : str := %s." % lit(f2),
+         "Definition str_s2_hex : str := %s." % lit(h2), "Definition str_s2_else : str := %s." % lit(e2),
+         "Definition str_end1 : str := %s." % lit(end1), "Definition str_end2 : str := %s." % lit(end2),
+         "Definition str_fmt_pre : str := %s." % lit(pre), "Definition str_fmt_post : str := %s." % lit(post)]
+    return "(* helper.py : string  (loop; shape pinned, constants regenerated) *)\n" + "\n".join(d) + STRING_MODEL
+
+
 def main():
-    out = []
+    out = [string_loop(ast.parse(src("helper.py")))]
     for rel, path, coqname, params, ret in TARGETS:
         tree = ast.parse(src(rel))
         node = find_func(tree, path)
